@@ -143,7 +143,7 @@ struct flat_set {
     template <typename... Args>
     constexpr auto emplace(Args&&... args) -> etl::pair<iterator, bool>
     {
-        auto key    = Key{etl::forward<Args>(args)...};
+        auto key    = Key(etl::forward<Args>(args)...);
         iterator it = lower_bound(key);
 
         if (it == end() or _compare(key, *it)) {
